@@ -31,6 +31,8 @@ class C07Episode(Episode):
                 ent['family'] = sc['family']
             if sc.get('type'):
                 ent['type'] = sc['type']
+            if sc.get('seqpacket'):
+                ent['type'] = 'SOCK_SEQPACKET'
             socks.append(ent)
         ws = []
         for wc in self.cfg['watchers']:
@@ -55,7 +57,8 @@ class C07Episode(Episode):
                    if k.lower() == sc['name'].lower()][0]
             sk = a.sockets[key]
             rec = {'sock': sk, 'bind': 0, 'listen': 0, 'close': 0,
-                   'kind': sc['kind'], 'reuseport': False, 'name': key}
+                   'kind': sc['kind'], 'reuseport': False, 'name': key,
+                   'seqpacket': bool(sc.get('seqpacket'))}
             self.socks[sc['name'].lower()] = rec
             for meth in ('bind', 'listen', 'close'):
                 orig = getattr(sk, meth)
@@ -125,7 +128,11 @@ class C07Episode(Episode):
         socks = []
         for i, sc in enumerate(self.cfg['sockets']):
             name = sc['name']
-            if sc['kind'] == 'unix':
+            if sc['kind'] == 'unix' and sc.get('seqpacket'):
+                # connection-oriented as well: bound, listening, accepted on
+                s = CircusSocket(name=name, path=os.path.join(
+                    d, 's%d.sock' % i), type=socket.SOCK_SEQPACKET)
+            elif sc['kind'] == 'unix':
                 s = CircusSocket(name=name, path=os.path.join(
                     d, 's%d.sock' % i))
             elif sc.get('reuseport'):
@@ -136,7 +143,8 @@ class C07Episode(Episode):
             else:
                 s = CircusSocket(name=name, host='127.0.0.1', port=0)
             rec = {'sock': s, 'bind': 0, 'listen': 0, 'close': 0,
-                   'kind': sc['kind'], 'reuseport': bool(sc.get('reuseport'))}
+                   'kind': sc['kind'], 'reuseport': bool(sc.get('reuseport')),
+                   'seqpacket': bool(sc.get('seqpacket'))}
             self.socks[name.lower()] = rec
             for meth in ('bind', 'listen', 'close'):
                 orig = getattr(s, meth)
@@ -291,7 +299,9 @@ class C07Episode(Episode):
             try:
                 fam = socket.AF_UNIX if rec['kind'] == 'unix' \
                     else socket.AF_INET
-                c = socket.socket(fam, socket.SOCK_STREAM)
+                c = socket.socket(fam, socket.SOCK_SEQPACKET
+                                  if rec.get('seqpacket')
+                                  else socket.SOCK_STREAM)
                 c.settimeout(1.0)
                 c.connect(rec['addr'])
                 c.close()
@@ -323,7 +333,8 @@ class C07(Prop):
     id = 'C07'
     level = 'exploration'
     rule = ('one case = 1-3 real CircusSockets (inet on 127.0.0.1 port 0, '
-            'unix paths in a scratch directory) and 1-3 watchers with and '
+            'unix paths in a scratch directory, a fifth of the latter of type '
+            'SOCK_SEQPACKET) and 1-3 watchers with and '
             'without use_sockets whose cmd refers to the sockets in both '
             'reference syntaxes and any letter case; history of worker '
             'deaths, restart, reload (all modes), incr / decr, kill over '
@@ -357,6 +368,9 @@ class C07(Prop):
         names = rng.sample(['web', 'Api', 'UX', 'db_1'], ns)
         cfg['sockets'] = [{'name': n, 'kind': rng.choice(['inet', 'unix'])}
                           for n in names]
+        for sc in cfg['sockets']:
+            if sc['kind'] == 'unix' and rng.random() < 0.2:
+                sc['seqpacket'] = True
         if rng.random() < 0.3:
             # an so_reuseport socket somewhere in the set (no watcher of the
             # case refers to it)
@@ -399,7 +413,7 @@ class C07(Prop):
                 if x < 0.6:
                     sc['family'] = rng.choice([fam, fam.lower(),
                                                fam.title()])
-                if rng.random() < 0.3:
+                if rng.random() < 0.3 and not sc.get('seqpacket'):
                     sc['type'] = rng.choice(['SOCK_STREAM', 'sock_stream'])
             for wc in cfg['watchers']:
                 wc['opts']['warmup_delay'] = int(wc['opts']['warmup_delay'])
